@@ -58,8 +58,17 @@ func NewAvahiProvider(ifaceIndexes []int32) *AvahiProvider {
 var _ api.MdnsProviderInterface = (*AvahiProvider)(nil)
 
 func (a *AvahiProvider) Start(autoReconnect bool, cb api.MdnsResolveCB) bool {
+	return a.start(autoReconnect, cb, false)
+}
+
+func (a *AvahiProvider) start(autoReconnect bool, cb api.MdnsResolveCB, isReconnect bool) bool {
 	a.mux.Lock()
 	defer a.mux.Unlock()
+
+	// a reconnect attempt must not revive a provider that was shut down in the meantime
+	if isReconnect && a.manualShutdown {
+		return false
+	}
 
 	a.autoReconnect = autoReconnect
 	a.resolveCB = cb
@@ -243,7 +252,7 @@ func (a *AvahiProvider) attemptReconnect(cb api.MdnsResolveCB) {
 
 		<-time.After(time.Second)
 
-		if !a.Start(true, cb) {
+		if !a.start(true, cb, true) {
 			continue
 		}
 
